@@ -114,7 +114,7 @@ var hungAbort bool
 // hangBudget is the real time one connection script may take before it is looked at (twice: the
 // second period is the confirmation). Ordinary scripts take about a millisecond of CPU; this is
 // the engine's own watchdog in the sense of DESIGN R2, not an oracle that reads the clock.
-const hangBudget = 20 * time.Second
+const hangBudget = 60 * time.Second
 
 // guard is e.Guard plus the "nor hangs" clause: f runs on its own goroutine; when it has not
 // returned after two budgets the case is reported with the innermost fiber frame of the
